@@ -34,7 +34,9 @@ RULE = ('a case = two datasets (all 18 parts populated, reference-closed, built 
         'comparison, then one mutation through one of every mutation path the containers offer (typed setters, inherited dict / set / '
         'list methods: update, |=, setdefault-chains, pop, popitem, inner edits, in-place attribute / array writes), a comparison, the '
         'mirrored change on the other side, a last comparison; every comparison is encoded and judged against the content the objects '
-        'hold at that moment. Non-trivial = the two sides are not the same object graph built the same '
+        'hold at that moment. At EVERY comparison the 18 equal_<part> helpers are also called one by one on the parts of the two '
+        'objects (both orders) and 2 (30 in the helper-calls cases) helpers are called directly with own-class / None / foreign-class '
+        'arguments (TypeError branch); double cases carry two mutations in two different parts. Non-trivial = the two sides are not the same object graph built the same '
         'way (i.e. a mutation, a copy, a reload or a reorder took place); distinct = distinct (specs, transforms).')
 TRUSTED = ['numpy-quaternion rotation_intrinsic_distance and numpy.linalg.norm: modelled for UNIT quaternions by the chord '
            'min(|qa-qb|,|qa+qb|) <= thr/2 and the squared distance over Q (Section parameter pose_close with contract '
@@ -45,8 +47,9 @@ TRUSTED = ['numpy-quaternion rotation_intrinsic_distance and numpy.linalg.norm: 
 ASSUMPTIONS = ['no NaN / infinity anywhere (np.isclose(nan, nan) and nan == nan are False in the code: a dataset holding a NaN is '
                'not equal to its own reload; out of the judged domain)',
                'quaternions are unit (|q|-1 <= 1e-12); the code also measures the norm ratio of non-unit quaternions',
-               'datasets are built through the typed kapture API (create_sensor, typed setters): a plain Sensor of type camera, or a '
-               'part of the wrong class, raises inside equal_kapture and is not generated',
+               'datasets are built through the typed kapture API (create_sensor, typed setters): a plain Sensor of type camera '
+               'raises inside equal_kapture and is not generated; an object of another class is handed directly to the ten typed '
+               'helpers only (modelled: TypeError), never to sensors / rigs / trajectories / collections / points3d helpers',
                'save/reload cases use reference-closed datasets whose present parts are non-empty and whose feature files exist; '
                'present-but-empty gnss / keypoints / descriptors / global_features / matches reload as None (a round-trip matter, '
                'property C01), which equal_kapture rightly reports as a difference',
@@ -408,8 +411,16 @@ def _base_for(case, xa, xb):
 def _encode_one(case, o):
     xa, xb = o['xa'], o['xb']
     base, name = _base_for(case, xa, xb)
-    return '{| c_base := %s; c_da := %s; c_db := %s; o_ab := %s; o_ba := %s |}' % (
-        name, _cdiff(xa, base), _cdiff(xb, base), kv.cbool(o['ab']), kv.cbool(o['ba']))
+    return ('{| c_base := %s; c_da := %s; c_db := %s; o_ab := %s; o_ba := %s; o_parts_ab := %s; o_parts_ba := %s; '
+            'o_calls := %s |}') % (
+        name, _cdiff(xa, base), _cdiff(xb, base), kv.cbool(o['ab']), kv.cbool(o['ba']),
+        kv.clist(kv.cbool(bool(x)) for x in o['pab']), kv.clist(kv.cbool(bool(x)) for x in o['pba']),
+        kv.clist('{| h_fn := %s; h_a := %s; h_b := %s; h_out := %s |}' % (
+            _PART_COQ[h], kv.copt(None if ca is None else _PART_COQ[ca]), kv.copt(None if cb is None else _PART_COQ[cb]),
+            _COUT[out]) for h, ca, cb, out in o['calls']))
+
+
+_COUT = {'T': '(Ans true)', 'F': '(Ans false)', 'TypeError': 'TypeErr', 'Other': 'OtherErr'}
 
 
 def encode(case, obs):
@@ -430,9 +441,42 @@ def _side(spec, via, seed, tmp):
     return k
 
 
-def _compare(a, b):
+# the helper of every part, as equal_kapture names them
+TYPED_HELPERS = ['records_camera', 'records_depth', 'records_lidar', 'records_wifi', 'records_bluetooth', 'records_gnss',
+                 'records_accelerometer', 'records_gyroscope', 'records_magnetic', 'observations']
+
+
+def helper_of(part):
+    import kapture.algo.compare as kcmp
+    name = 'equal_' + part + ('_collections' if part in ('keypoints', 'descriptors', 'global_features', 'matches') else '')
+    return getattr(kcmp, name)
+
+
+def _call_helper(h, x, y):
+    try:
+        with warnings.catch_warnings():
+            warnings.simplefilter('ignore')
+            return 'T' if bool(helper_of(h)(x, y)) else 'F'
+    except TypeError:
+        return 'TypeError'
+    except Exception:
+        return 'Other'
+
+
+def _compare(a, b, calls=()):
     from kapture.algo.compare import equal_kapture
     res = {}
+    # the 18 helpers one by one on the parts of the two objects, both orders
+    for name, (x, y) in (('pab', (a, b)), ('pba', (b, a))):
+        res[name] = []
+        for p in _PART_COQ:
+            r = _call_helper(p, getattr(x, p), getattr(y, p))
+            res[name].append(r == 'T')
+            if r not in 'TF':
+                res['helper_exc'] = 'equal_%s: %s' % (p, r)
+    # direct helper calls, some with an object of another class (the error branch)
+    res['calls'] = [[h, ca, cb, _call_helper(h, None if ca is None else getattr(a, ca), None if cb is None else getattr(b, cb))]
+                    for h, ca, cb in calls]
     for name, (x, y) in (('ab', (a, b)), ('ba', (b, a))):
         try:
             with warnings.catch_warnings():
@@ -674,12 +718,13 @@ def run_impl(case, ctx):
     seed = case.get('seed', 0)
     a = _side(case['a'], case.get('a_via', 'build'), seed, ctx['tmp'])
     b = _side(case['b'], case.get('b_via', 'build'), seed + 1, ctx['tmp'])
+    calls = case.get('calls', ())
     if 'steps' not in case:
-        return _compare(a, b)
+        return _compare(a, b, calls)
     compares, last = [], 'start'
     for st in case['steps']:
         if st['op'] == 'compare':
-            o = _compare(a, b)
+            o = _compare(a, b, calls)
             o['after'] = last
             compares.append(o)
         elif st['op'] == 'query':
@@ -777,6 +822,21 @@ def _judge(o, exp, what):
         return f'equal_kapture raised on valid datasets [{what}]: ' + o['exc'].split(':')[0]
     if o['ab'] != o['ba']:
         return f'not symmetric: equal(a,b)={o["ab"]} but equal(b,a)={o["ba"]} [{what}]'
+    if o.get('helper_exc'):
+        return f'a helper raised on parts of valid datasets [{what}]: ' + o['helper_exc']
+    for p, x, y in zip(_PART_COQ, o.get('pab', []), o.get('pba', [])):
+        if x != y:
+            return f'helper equal_{p} not symmetric [{what}]'
+    for h, ca, cb, out in o.get('calls', []):
+        own = (ca in (None, h)) and (cb in (None, h))
+        if h in TYPED_HELPERS and not own:
+            # an object of another class (None attributes are passed as None and are fine)
+            xa, xb = o['xa'], o['xb']
+            foreign = (ca not in (None, h) and xa.get(ca) is not None) or (cb not in (None, h) and xb.get(cb) is not None)
+            if foreign and out in 'TF':
+                return f'equal_{h} answers on an object of another class instead of raising TypeError'
+        if own and out not in 'TF':
+            return f'equal_{h} raised on objects of its own class: {out}'
     if exp == 'eq' and not o['ab']:
         if what in ('copy', 'reload', 'reorder', 'same-build'):
             return f'answers false for a dataset and its {what}'
@@ -807,6 +867,12 @@ def nontrivial(case, obs):
 
 def classify(case, obs):
     tag = case.get('tag', '?').split(':')
+    if tag[0] == 'helper-calls':
+        outs = [c[3] for c in obs.get('calls', [])]
+        return 'helper-calls -> %d TypeError / %d True / %d False%s' % (
+            outs.count('TypeError'), outs.count('T'), outs.count('F'), ' / other!' if 'Other' in outs else '')
+    if tag[0] == 'double':
+        return 'double/%s -> %d helpers answer False' % (case.get('expect', 'any'), list(obs.get('pab', [])).count(False))
     if 'steps' in case:
         pat = ''.join('T' if o['ab'] else 'F' for o in obs['compares']) + ('!' if obs.get('mut_exc') else '')
         return 'history/%s -> %s' % (tag[1] if len(tag) > 1 else tag[0], pat)
@@ -1342,7 +1408,46 @@ def histories(spec, rng):
     yield hist(f'drop_row:{p}', {'part': p, 'how': 'drop_row', 'row': 0})
 
 
+def _rcalls(rng, n):
+    """n direct helper calls [helper, attribute of a passed first | None, attribute of b passed second | None]:
+    own class / None / an object of another class (typed helpers only: the error branch of equal_nested_dict_or_set)"""
+    allp = list(_PART_COQ)
+    out = []
+    for _ in range(n):
+        if rng.random() < 0.75:
+            h = rng.choice(TYPED_HELPERS)
+            f, f2 = rng.sample([q for q in allp if q != h], 2)
+            pat = rng.choice([(h, h), (h, None), (None, h), (None, None), (f, h), (h, f), (f, None), (None, f), (f, f2), (f, f),
+                              (f, h), (h, f)])
+        else:
+            h = rng.choice([q for q in allp if q not in TYPED_HELPERS])
+            pat = rng.choice([(h, h), (h, h), (h, None), (None, h), (None, None)])
+        out.append([h, pat[0], pat[1]])
+    return out
+
+
+def _double(spec, m1, m2):
+    """both mutations applied (when they touch different parts), so that more than one helper answers False"""
+    p1 = {p for p in set(spec) | set(m1) if spec.get(p) != m1.get(p)}
+    p2 = {p for p in set(spec) | set(m2) if spec.get(p) != m2.get(p)}
+    if not p1 or not p2 or (p1 & p2):
+        return None
+    out = dict(m1)
+    for p in p2:
+        out[p] = m2.get(p)
+    return out
+
+
 def gen_cases(rng, tier):
+    cases = _gen_cases(rng, tier)
+    crng = kv.make_rng('C08', rng.randrange(1 << 30), 'calls')
+    for c in cases:
+        if 'calls' not in c:
+            c['calls'] = _rcalls(crng, 2)
+    return cases
+
+
+def _gen_cases(rng, tier):
     global SHARD_SIZE
     n_bases = 4 if tier == 'quick' else 16
     SHARD_SIZE = 60 if tier == 'quick' else 240      # the shard header carries the named base datasets
@@ -1372,6 +1477,25 @@ def gen_cases(rng, tier):
                 mk(mutated, spec, tag, expect, b_via=other)
             if side in ('b', 'both'):
                 mk(spec, mutated, tag, expect, a_via=other)
+        # two parts differ (the short-circuit of equal_kapture hides the second one: the helpers are observed one by one)
+        muts = list(mutations(spec, rng))
+        for _ in range(24 if tier == 'quick' else 96):
+            (t1, m1, e1), (t2, m2, e2) = rng.sample(muts, 2)
+            both = _double(spec, m1, m2)
+            if both is None:
+                continue
+            exp = 'ne' if 'ne' in (e1, e2) else 'any'
+            tag = 'double:%s+%s' % (t1.split(':')[-1], t2.split(':')[-1])
+            if rng.random() < 0.5:
+                mk(both, spec, tag, exp, b_via=rng.choice(['build', 'deepcopy', 'shuffle']))
+            else:
+                mk(m1, m2, tag, 'ne' if (e1 == 'ne' and e2 == 'ne') else 'any')
+        # direct helper calls: own class / None / an object of another class, on equal and on differing datasets
+        for j in range(6 if tier == 'quick' else 12):
+            other = spec if j % 3 == 0 else (sub if j % 3 == 1 else rng.choice(muts)[1])
+            pair = (spec, other) if j % 2 == 0 else (other, spec)
+            cases.append({'a': pair[0], 'b': pair[1], 'a_via': 'build', 'b_via': 'build', 'seed': seed,
+                          'tag': 'helper-calls', 'expect': 'any', 'calls': _rcalls(rng, 30)})
         # comparison histories on the same two live objects (every other base)
         if bi % 2 == 0:
             for tag, steps in histories(spec, rng):
@@ -1397,7 +1521,10 @@ LEVEL_TEXT = ('Theorems in coq/Props/C08.v hold for all datasets satisfying the 
               'part on either side. The walk of the model and the parts equal_kapture was observed to visit both cover '
               'Kapture.__init__ (regenerated table). The pre-repair behaviour is refuted by three computed witnesses. The answer depends only '
               'on the current content of both arguments (C08_equal_depends_on_content_only); the correspondence over comparison '
-              'histories (mutations through typed and inherited methods between comparisons on the same objects) ties the code to it.')
+              'histories (mutations through typed and inherited methods between comparisons on the same objects) ties the code to it. '
+              'equal is the conjunction of 18 helper answers, each symmetric and local to its part; the visiting order is irrelevant; '
+              'the ten typed helpers raise TypeError exactly on a foreign class (regenerated table), equal_kapture never raises on '
+              'datasets whose attributes hold their own class; the same write / removal on both sides preserves equality.')
 LEVEL_NOTE = ('Trusted: Coq kernel + vm_compute; the harness builders / extractors / encoders; float64 evaluation of np.isclose, '
               'numpy.linalg.norm and quaternion.rotation_intrinsic_distance (modelled over Q, generator keeps away from the '
               'thresholds); unit quaternions; no NaN. The tolerance relations are not transitive, so "equality" is reflexive and '
